@@ -281,7 +281,9 @@ Proof.
   erewrite pbind_some by (apply nat10_sN; reflexivity).
   change ("]=""(" ++ join " " (map kv row) ++ ")""" ++ nl ++ rest)%string
     with ("]=" ++ """(" ++ join " " (map kv row) ++ ")""" ++ nl ++ rest)%string.
-  rewrite pbind_lit. apply alt_take. rewrite pbind_lit.
+  rewrite pbind_lit.
+  replace (is_descr_var var) with false by (destruct Hvar as [-> | [-> | ->]]; reflexivity). cbv iota.
+  apply alt_take. rewrite pbind_lit.
   erewrite pbind_some by (apply kv_list; eexists; reflexivity).
   rewrite pbind_lit. rewrite (pbind_some _ _ _ _ _ (eol_nl rest)). reflexivity.
 Qed.
